@@ -482,10 +482,8 @@ theorem persistProbe (cfg : Cfg) (h : IdxInv k) (fd : Nat) : IdxInv (k.persistPr
     · exact h
     · dsimp only
       split
-      · exact h
-      · split
-        · exact h.setSock _ _
-        · exact (h.setSock _ _).emit _ _ _
+      · exact h.setSock _ _
+      · exact (h.setSock _ _).emit _ _ _
 
 theorem checkRetx0 (cfg : Cfg) (h : IdxInv k) : IdxInv (Kernel.checkRetx0 cfg k) := by
   unfold Kernel.checkRetx0
